@@ -5,7 +5,7 @@ from __future__ import annotations
 
 from typing import Callable, Dict, List, Optional, Tuple
 
-from .absint import Config, Interp, Outcome, Run
+from .absint import Config, Interp, Outcome, RaiseSig, Run
 from .index import AnalysisError
 from .rulekit import Dim, dim_of, new_dict, new_list, new_obj, stub_bool, stub_effect
 from .values import (C, FALSE, INF, NONE, TRUE, App, Bound, Cls, Ext, Fn, HDict, HList, HObj, Ref, Sym, Tup,
@@ -122,23 +122,70 @@ def mk_websocket(I: Interp, run: Run, skip=None, fire=None, **ctor) -> Ref:
     return ws
 
 
-def set_cont_state(run: Run, ws: Ref, state: str):
-    """state: 'idle' | 'text' | 'binary' -- reassembly state before the frame under analysis."""
+def set_cont_state(run: Run, ws: Ref, state: str, I: "Interp" = None):
+    """state: 'idle' | 'text' | 'binary' | 'text_fired' | 'binary_fired' -- reassembly state before the frame under analysis.
+
+    The state is *reached*, not planted: the first fragment of a message (TEXT / BINARY, fin=0, payload <acc>) is handed to the
+    reassembler's own validate()/add() (and, with per-fragment delivery, taken out again with extract()), so the analysis does
+    not depend on how the reassembler represents "a message is in progress"."""
     cf = run.cell(ws).fields.get("cont_frame")
     if not isinstance(cf, Ref):
         raise AnalysisError("WebSocket.cont_frame is not an object")
-    c = run.cell(cf)
+    run.memo["@reasm_idle"] = reasm_snapshot(run, ws)   # as the constructor leaves it
     if state == "idle":
-        c.fields["cont_data"] = NONE
-        c.fields["recving_frames"] = NONE
-    elif state.endswith("_fired"):
-        # per-fragment delivery: earlier fragments were already handed out
-        c.fields["cont_data"] = NONE
-        c.fields["recving_frames"] = C(1 if state.startswith("text") else 2)
-    else:
-        op = 1 if state == "text" else 2
-        c.fields["recving_frames"] = C(op)
-        c.fields["cont_data"] = new_list(run, [C(op), Sym("acc", "bytes")])
+        run.memo["@reasm_before"] = run.memo["@reasm_idle"]
+        return
+    if I is None:
+        I = run.interp
+    op = 1 if state.startswith("text") else 2
+    fr = new_obj(run, "_abnf:ABNF", "fragment0", fin=C(0), rsv1=C(0), rsv2=C(0), rsv3=C(0), opcode=C(op), mask_value=C(0), data=Sym("acc", "bytes"))
+    n_eff = len(run.effects)
+    try:
+        I.call(run, I.getattr(run, cf, "validate", None), [fr], {}, None)
+        I.call(run, I.getattr(run, cf, "add", None), [fr], {}, None)
+        if state.endswith("_fired"):
+            # per-fragment delivery: the first fragment has already been handed out
+            I.call(run, I.getattr(run, cf, "extract", None), [fr], {}, None)
+    except RaiseSig as r:
+        raise AnalysisError(f"the reassembler refuses the first fragment of a message ({I.exc_class_name(run, r.exc)}): state {state!r} cannot be reached")
+    del run.effects[n_eff:]
+    run.memo["@reasm_before"] = reasm_snapshot(run, ws)
+
+
+def _deep(run: Run, v, depth=0):
+    if isinstance(v, Ref) and depth < 6:
+        c = run.heap.get(v.addr) or (run.interp.base.heap.get(v.addr) if getattr(run.interp, "base", None) is not None else None)
+        if isinstance(c, HList):
+            return ("list", tuple(_deep(run, x, depth + 1) for x in c.items))
+        if isinstance(c, HDict):
+            return ("dict", tuple(sorted((repr(k), _deep(run, x, depth + 1)) for k, x in c.items.items())))
+        if c is not None and not isinstance(c, (HObj, HList, HDict)):
+            return ("native", repr(getattr(c, "obj", c)))
+        if isinstance(c, HObj):
+            if c.cls == "builtins.bytearray":
+                return ("bytearray", _deep(run, c.fields.get("@parts"), depth + 1))
+            return ("obj", c.cls, tuple(sorted((k, _deep(run, x, depth + 1)) for k, x in c.fields.items() if not k.startswith("@") or k == "@parts")))
+    if hasattr(v, "key"):
+        r = run.interp.resolve(run, v) if hasattr(run.interp, "resolve") else v
+        return repr(r)
+    return repr(v)
+
+
+def reasm_snapshot(run: Run, ws: Ref):
+    """Everything the reassembler object holds, by value (whatever its fields are called)."""
+    cf = run.cell(ws).fields.get("cont_frame")
+    if not isinstance(cf, Ref):
+        raise AnalysisError("WebSocket.cont_frame is not an object")
+    snap = _deep(run, cf)
+    # configuration fields do not count as reassembly state
+    return snap
+
+
+def reasm_after(out: Outcome):
+    ws = next((a for a, c in out.run.heap.items() if getattr(c, "label", "") == "ws"), None)
+    if ws is None:
+        raise AnalysisError("no WebSocket object on this path")
+    return reasm_snapshot(out.run, Ref(ws))
 
 
 def frame_dims(I: Interp, out: Outcome, skip: Value = None) -> Optional[Dict[str, Dim]]:
@@ -176,7 +223,7 @@ def explore_recv(ctx, I: Interp, level: str, state: str = "idle", control_frame:
 
     def body(run: Run):
         ws = mk_websocket(I, run, skip=skip, fire=fire)
-        set_cont_state(run, ws, state)
+        set_cont_state(run, ws, state, I)
         fn = I.getattr(run, ws, q.split(".")[-1], None)
         args = []
         if level in ("recv_data_frame", "recv_data"):
